@@ -22,6 +22,8 @@ subgraph outputs):
                                      matching arities, function outputs visible, pairwise distinct, and none of
                                      them a graph input.  Only hypothesis: Python's rule that parameter names
                                      are distinct;
+* `convert_opsets_single`, `mixed_default_opset_refused` — an accepted function takes every default-domain
+                                     operator from one opset version; mixing versions is a modelled refusal;
 * `wfGraph_sound`                  — the executable checker `wfGraph` (run by the harness on the protos the
                                      REAL converter emitted, parsed back into `Graph`) implies the
                                      declarative clauses.
@@ -104,6 +106,37 @@ example : (demo.params.map Param.name).Nodup ∧ (convert demo).toOption.isSome 
   constructor
   · decide
   · decide +kernel
+
+/-- **`convert_opsets_single`: one version of the default-domain opset per accepted function.**  Whatever the
+converter accepts, every call that takes a default-domain operator from an opset object (`op.Add`,
+`opset17.Abs`, …) — at top level, in `if` branches, in loop bodies, in operands of other calls — takes it from
+the opset version `default_opset` has (each emitted node copies its callee's opset version, so all default-domain
+nodes carry that one version).  This is the clause the code enforces (`_set_default_opset`); for other domains
+`IRFunction.append_node` merely warns, and nothing is claimed. -/
+theorem convert_opsets_single (f : Func) (g : Graph) (h : convert f = .ok g) : opsetsOK f = true :=
+  (convert_core h).2.1
+
+/-- … and conversely a function that mixes two versions of the default-domain opset anywhere is refused with a
+`TranslationError` (given that the analyser accepted its statements). -/
+theorem mixed_default_opset_refused (f : Func) (d : VSet) (ha : assignedBlock f.body = some d)
+    (hmix : opsetsOK f = false) : convert f = .error .translation := by
+  unfold convert
+  rw [ha]
+  simp [hmix]
+
+/-- Non-vacuity: `if c: x = opset17.Abs(A) else: x = op.Neg(A)` under `default_opset = opset18` is refused;
+with `opset18.Abs` it is accepted. -/
+example :
+    let mk (v : Nat) : Func :=
+      { name := "f", params := [.tensor "A", .tensor "c"], retCount := none, opsetVer := 18,
+        body := [
+          .ite (.var "c")
+            [.assign "x" (.call "" "Abs" { known := true, variadic := false, homog := true, tvs := [some "T"], ver := v } [.var "A"] [])]
+            [.assign "x" (.call "" "Neg" { known := true, variadic := false, homog := true, tvs := [some "T"], ver := 18 } [.var "A"] [])],
+          .ret [.var "x"] false] }
+    opsetsOK (mk 17) = false ∧ (convert (mk 17)).toOption.isSome = false
+      ∧ opsetsOK (mk 18) = true ∧ (convert (mk 18)).toOption.isSome = true := by
+  refine ⟨by decide, by decide +kernel, by decide, by decide +kernel⟩
 
 theorem nodupB_iff (l : List Name) : nodupB l = true ↔ l.Nodup := by
   induction l with
